@@ -206,6 +206,26 @@ def _mixed_init_slice(body):
     return out
 
 
+def _kwargs_slice(body):
+    """_analysis: the construction of the keyword arguments of the StiffnessTester (inside `if len(analytic_syms) < len(x):` / `if not disable_stiffness_check:`)"""
+    for st in body:
+        if isinstance(st, ast.If) and ast.unparse(st.test) == "len(analytic_syms) < len(shape_sys.x_)":
+            for st2 in st.body:
+                if isinstance(st2, ast.If) and ast.unparse(st2.test) == "not disable_stiffness_check":
+                    out, on = [], False
+                    for st3 in st2.body:
+                        u = ast.unparse(st3)
+                        if u.startswith("kwargs = {}"):
+                            on = True
+                        if u.startswith("tester = StiffnessTester("):
+                            if u != "tester = StiffnessTester(sub_sys, shapes, **kwargs)":
+                                raise ValueError("the tester is no longer constructed from exactly these keyword arguments")
+                            return out
+                        if on:
+                            out.append(st3)
+    raise ValueError("keyword arguments of the stiffness tester not found in _analysis")
+
+
 GROUPS = {
     # ---------------------------------------------------------------------------------- C15
     "PySpikes": {
@@ -828,6 +848,52 @@ GROUPS = {
                 result_type="Bool",
                 doc="EVERY entry of the matrix is substituted and simplified for EVERY pair of the condition; `undef val expr subs_expr` is the SymPy test "
                     "'the simplified substituted entry is or contains nan / zoo / oo' (contract)")),
+        ],
+    },
+    "PyTesterArgs": {
+        "imports": ["OdeVerif.Model.PyPrelude", "OdeVerif.Model.Glue"],
+        "file": "odetoolbox/__init__.py",
+        "functions": [
+            (("_analysis",), Spec(
+                name="testerKwargs", header="{α : Type}",
+                params=[("hasOptions", "Bool"), ("optionsHaveSeed", "Bool"), ("seedVal", "Int"), ("hasParameters", "Bool"), ("hasStimuli", "Bool"),
+                        ("cfgKeys", "List String"), ("cfg", "String → α"), ("hasAnalytic", "Bool")],
+                types={"kwargs": "List (String × Glue.Kw α)", "random_seed": "Int", "key": "String",
+                       "for:['sim_time', 'max_step_size', 'integration_accuracy_abs', 'integration_accuracy_rel']": "String"},
+                expr_map={"{}": "[]", "'options' in indict.keys() and 'random_seed' in indict['options'].keys()": "(hasOptions = true ∧ optionsHaveSeed = true)",
+                          "'parameters' in indict.keys()": "(hasParameters = true)", "'stimuli' in indict.keys()": "(hasStimuli = true)",
+                          "key in Config().keys()": "(key ∈ cfgKeys)", "not analytic_solver_json is None": "(hasAnalytic = true)",
+                          "random_seed": "(Glue.Kw.seed random_seed)", "indict['parameters']": "Glue.Kw.ref", "indict['stimuli']": "Glue.Kw.ref",
+                          "analytic_solver_json": "Glue.Kw.ref", "float(Config()[key])": "(Glue.Kw.num (cfg key))",
+                          "['sim_time', 'max_step_size', 'integration_accuracy_abs', 'integration_accuracy_rel']":
+                              "[\"sim_time\", \"max_step_size\", \"integration_accuracy_abs\", \"integration_accuracy_rel\"]"},
+                index_set={"kwargs": ("kwargs", "(Glue.assoc {old} {k} {v})")},
+                stmt_map={"random_seed = int(indict['options']['random_seed'])": [("random_seed", "seedVal")]},
+                asserts="drop", body_filter=_kwargs_slice, end_return="kwargs", result_type="List (String × Glue.Kw α)",
+                doc="the keyword arguments `_analysis` constructs the StiffnessTester with (the constructor call itself is pinned: exactly `**kwargs`). "
+                    "A value is a number read from the option store (`float(Config()[key])` = `cfg key`), the seed, or an object of the input passed through "
+                    "(`Glue.Kw.ref`); `Config().keys()` is `cfgKeys`")),
+        ],
+    },
+    "PyBenchmark": {
+        "imports": ["OdeVerif.Model.PyPrelude", "OdeVerif.Model.Glue"],
+        "file": "odetoolbox/stiffness.py",
+        "functions": [
+            (("StiffnessTester", "_evaluate_integrator"), Spec(
+                name="evaluateIntegrator", header="", params=[("seed", "Int"), ("integrator", "String")],
+                types={"trace": "List Glue.BenchEv"},
+                predeclare=[("trace", "[]")],
+                expr_map={"(h_min, h_avg, runtime)": "trace"},
+                stmt_map={"np.random.seed(self.random_seed)": [("trace", "(trace ++ [Glue.BenchEv.seedNumpy seed])")],
+                          "random.seed(self.random_seed)": [("trace", "(trace ++ [Glue.BenchEv.seedPython seed])")],
+                          "spike_times = SpikeGenerator.spike_times_from_json(self._stimuli, self.sim_time)": [("trace", "(trace ++ [Glue.BenchEv.generateStimulus])")],
+                          'mixed_integrator = MixedIntegrator(integrator, self.system_of_shapes, self.shapes, analytic_solver_dict=self.analytic_solver_dict, parameters=self.parameters, spike_times=spike_times, random_seed=self.random_seed, max_step_size=self.max_step_size, integration_accuracy_abs=self.integration_accuracy_abs, integration_accuracy_rel=self.integration_accuracy_rel, sim_time=self.sim_time, alias_spikes=self.alias_spikes)': [("trace", "(trace ++ [Glue.BenchEv.construct integrator])")],
+                          "h_min, h_avg, runtime = (lambda x: x[:3])(mixed_integrator.integrate_ode(h_min_lower_bound=h_min_lower_bound, raise_errors=raise_errors, debug=debug))":
+                              [("trace", "(trace ++ [Glue.BenchEv.integrate])")]},
+                asserts="drop", result_type="List Glue.BenchEv",
+                doc="every statement is a call and is pinned verbatim (incl. the complete argument list of the MixedIntegrator constructor: the tester's own system, "
+                    "shapes, analytic solver dictionary, parameters, the spike times just generated, seed, step bound, accuracies, simulation time, aliasing mode); "
+                    "the result is the trace of what happens, in order")),
         ],
     },
     # ---------------------------------------------------------------------------------- C14
